@@ -31,11 +31,11 @@ def gumbelMinInvcdf (loc scale p : α) : Ext α := invMask (fun p => gm_invcdf l
 
 /-! ### order statistics and probability weighted moments -/
 
-/-- Binomial coefficient on naturals (Pascal recursion; `scipy.special.binom` at integer arguments). -/
-def choose : Nat → Nat → Nat
-  | _, 0 => 1
-  | 0, _ + 1 => 0
-  | n + 1, k + 1 => choose n k + choose n (k + 1)
+/-- Binomial coefficient on naturals by the multiplicative recurrence `C(n,k+1) = C(n,k)·(n-k)/(k+1)` (exact
+division; `scipy.special.binom` at integer arguments). -/
+def choose (n : Nat) : Nat → Nat
+  | 0 => 1
+  | k + 1 => choose n k * (n - k) / (k + 1)
 
 variable [NatCast α]
 
